@@ -41,7 +41,7 @@ func TestCheck(t *testing.T) {
 	}()
 	ctx := context.Background()
 	n := int64(cfg.Pick(300, 400))
-	nTyped := int64(cfg.Pick(700, 6000))
+	nTyped := int64(cfg.Pick(500, 5000))
 	rep.Cases(n+nTyped, func(idx int64, rng *mon.Rand) {
 		if idx < n && os.Getenv("C04_TYPED_ONLY") != "" {
 			return // debugging aid: skip the gspec workload
